@@ -257,7 +257,7 @@ func maxCommon(a, b []kmip.ProtocolVersion) *kmip.ProtocolVersion {
 func runC13(c *vlib.Check) {
 	c.Rule = "exhaustive product of configurations: 31 non-empty client subsets of {1.0..1.4} x 32 server subsets x server behaviours {real BatchExecutor with default versions, real executor after " +
 		"SetSupportedProtocolVersions, discovery unsupported, scripted server listing descending / ascending / every permutation (sets <=3) / versions the client did not offer / empty list} x " +
-		"{not enforced, enforced (5 values)}; each cell = one DialContext, and one DialClusterContext, + one follow-up request + one request through a Clone of the client, over in-process pipes; reference = max(client ∩ server); option histories (one Option value reused across two Dials) and server histories (every ordered pair of client sets negotiating one after the other with one real executor, 8 server configurations). distinct = distinct cells"
+		"{not enforced, enforced (5 values, against servers listing everything / not supporting discovery / not listing the enforced version / listing nothing)}; each cell = one DialContext, and one DialClusterContext, + one follow-up request + one request through a Clone of the client, over in-process pipes; reference = max(client ∩ server); option histories (one Option value reused across two Dials) and server histories (every ordered pair of client sets negotiating one after the other with one real executor, 8 server configurations). distinct = distinct cells"
 	c.Assumptions = []string{"the quantifier is over configurations, not schedules: each cell is a single deterministic exchange",
 		"when a real executor restricted to a set without 1.1 rejects the (1.1-framed) discovery request for its version, a failed connection is accepted; a wrong adopted version is not"}
 	type cell struct {
@@ -303,6 +303,17 @@ func runC13(c *vlib.Check) {
 		for i := range allVersions {
 			e := allVersions[i]
 			cells = append(cells, cell{client: cl, enforce: &e, srv: func() c13server { return scripted("enforced", allVersions, allVersions, true) }, desc: "enforced"})
+			// ... whatever the server would have answered to a discovery: it does not support it, does not list the enforced version, lists nothing
+			var others []kmip.ProtocolVersion
+			for _, v := range allVersions {
+				if v != e {
+					others = append(others, v)
+				}
+			}
+			cells = append(cells,
+				cell{client: cl, enforce: &e, srv: func() c13server { return noDiscovery(allVersions) }, desc: "enforced-discovery-unsupported"},
+				cell{client: cl, enforce: &e, srv: func() c13server { return scripted("enforced-not-listed", others, others, false) }, desc: "enforced-not-listed"},
+				cell{client: cl, enforce: &e, srv: func() c13server { return scripted("enforced-empty-list", nil, nil, true) }, desc: "enforced-empty-list"})
 		}
 	}
 	vlib.Parallel(2*len(cells), 0, func(i2 int) {
